@@ -339,6 +339,12 @@ func c12Equal(name string, wvals []any, werr error, rval any, rerr error) (bool,
 		return true, desc // the wrapper only reports the error
 	}
 	w := wvals[0]
+	// documented conversion: scores are reported as int64 (truncated) where go-redis has float64
+	if f, ok := rval.(float64); ok {
+		if _, isInt := w.(int64); isInt {
+			rval = int64(f)
+		}
+	}
 	// bool result derived from an integer reply: true iff >= 1
 	if wb, ok := w.(bool); ok {
 		switch rv := rval.(type) {
@@ -461,6 +467,12 @@ func c12Adapter(r *zsim.Run, w *Redis, b *zredis.Server, ctx context.Context) bo
 		if wv != nil {
 			wvals = []any{wv}
 		}
+		// documented conversion: scores are reported as int64 (truncated) where go-redis has float64
+		if f, ok := rv.(float64); ok {
+			if _, isInt := wv.(int64); isInt {
+				rv = int64(f)
+			}
+		}
 		eq, desc := c12Equal(name, wvals, werr, rv, rerr)
 		r.Logf("%s(%s): %s", name, args, desc)
 		r.Probe("adapter_" + name)
@@ -470,7 +482,7 @@ func c12Adapter(r *zsim.Run, w *Redis, b *zredis.Server, ctx context.Context) bo
 		}
 		return true
 	}
-	switch o.Intn(14) {
+	switch o.Intn(34) {
 	case 0:
 		k, v, s := c12KeyFor(o, "Set"), c12Members[o.Intn(7)], 1+o.Intn(20)
 		werr := w.SetEx(k, v, s)
@@ -547,6 +559,160 @@ func c12Adapter(r *zsim.Run, w *Redis, b *zredis.Server, ctx context.Context) bo
 		wv, werr := w.Eval(script, []string{k}, v)
 		rv, rerr := cl.Eval(ctx, script, []string{k}, v).Result()
 		return check("Eval", fmt.Sprint(k, v), wv, werr, rv, rerr)
+	case 14:
+		k, a, z := c12KeyFor(o, "BitCount"), int64(o.Intn(3)), int64(o.Intn(4)-1)
+		wv, werr := w.BitCount(k, a, z)
+		rv, rerr := cl.BitCount(ctx, k, &red.BitCount{Start: a, End: z}).Result()
+		return check("BitCount", fmt.Sprint(k, a, z), wv, werr, rv, rerr)
+	case 15:
+		k, bit, a, z := c12KeyFor(o, "BitPos"), int64(o.Intn(2)), int64(o.Intn(2)), int64(o.Intn(3)-1)
+		wv, werr := w.BitPos(k, bit, a, z)
+		rv, rerr := cl.BitPos(ctx, k, bit, a, z).Result()
+		return check("BitPos", fmt.Sprint(k, bit, a, z), wv, werr, rv, rerr)
+	case 16:
+		k, at := c12KeyFor(o, "Set"), time.Now().Unix()+int64(o.Intn(30))-2
+		werr := w.ExpireAt(k, at)
+		rv, rerr := cl.ExpireAt(ctx, k, time.Unix(at, 0)).Result()
+		return check("ExpireAt", fmt.Sprint(k, at), nil, werr, rv, rerr)
+	case 17:
+		k, v := c12KeyFor(o, "Set"), c12Members[o.Intn(7)]
+		wv, werr := w.GetSet(k, v)
+		rv, rerr := cl.GetSet(ctx, k, v).Result()
+		return check("GetSet", fmt.Sprint(k, v), wv, werr, rv, rerr)
+	case 18:
+		k, fld, v := c12KeyFor(o, "HSet"), c12Members[o.Intn(7)], c12Members[o.Intn(7)]
+		werr := w.HSet(k, fld, v)
+		rv, rerr := cl.HSet(ctx, k, fld, v).Result()
+		return check("HSet", fmt.Sprint(k, fld, v), nil, werr, rv, rerr)
+	case 19:
+		k, fld, v := c12KeyFor(o, "HSetNX"), c12Members[o.Intn(7)], c12Members[o.Intn(7)]
+		wv, werr := w.HSetNX(k, fld, v)
+		rv, rerr := cl.HSetNX(ctx, k, fld, v).Result()
+		return check("HSetNX", fmt.Sprint(k, fld, v), wv, werr, rv, rerr)
+	case 20:
+		k := c12KeyFor(o, "HMSet")
+		m := map[string]string{c12Members[o.Intn(3)]: c12Members[o.Intn(7)], c12Members[3+o.Intn(3)]: c12Members[o.Intn(7)]}
+		werr := w.HMSet(k, m)
+		rv, rerr := cl.HMSet(ctx, k, m).Result()
+		return check("HMSet", fmt.Sprint(k, c12Canon(m)), nil, werr, rv, rerr)
+	case 21:
+		pat := zsim.Pick(o, "s*", "*1", "h?", "nothing*")
+		wv, werr := w.Keys(pat)
+		rv, rerr := cl.Keys(ctx, pat).Result()
+		sort.Strings(wv)
+		sort.Strings(rv)
+		return check("Keys", pat, wv, werr, rv, rerr)
+	case 22:
+		k, cnt, v := c12KeyFor(o, "LRem"), o.Intn(3)-1, c12Members[o.Intn(3)]
+		wv, werr := w.LRem(k, cnt, v)
+		rv, rerr := cl.LRem(ctx, k, int64(cnt), v).Result()
+		return check("LRem", fmt.Sprint(k, cnt, v), wv, werr, rv, rerr)
+	case 23:
+		k := c12KeyFor(o, "PFCount")
+		wv, werr := w.PFCount(k)
+		rv, rerr := cl.PFCount(ctx, k).Result()
+		return check("PFCount", k, wv, werr, rv, rerr)
+	case 24:
+		wv := w.Ping()
+		rv, rerr := cl.Ping(ctx).Result()
+		return check("Ping", "", wv, nil, rv, rerr)
+	case 25:
+		k, v := c12KeyFor(o, "Set"), c12Members[o.Intn(7)]
+		werr := w.Set(k, v)
+		rv, rerr := cl.Set(ctx, k, v, 0).Result()
+		return check("Set", fmt.Sprint(k, v), nil, werr, rv, rerr)
+	case 26:
+		k, v := c12KeyFor(o, "Set"), c12Members[o.Intn(7)]
+		wv, werr := w.SetNX(k, v)
+		rv, rerr := cl.SetNX(ctx, k, v, 0).Result()
+		return check("SetNX", fmt.Sprint(k, v), wv, werr, rv, rerr)
+	case 27:
+		k, sc, mb := c12KeyFor(o, "ZAddFloat"), float64(o.Intn(20))+0.5, c12Members[o.Intn(7)]
+		wv, werr := w.ZAddFloat(k, sc, mb)
+		rv, rerr := cl.ZAdd(ctx, k, &red.Z{Score: sc, Member: mb}).Result()
+		return check("ZAddFloat", fmt.Sprint(k, sc, mb), wv, werr, rv, rerr)
+	case 28:
+		k, inc, mb := c12KeyFor(o, "ZIncrBy"), int64(o.Intn(7)-2), c12Members[o.Intn(7)]
+		wv, werr := w.ZIncrBy(k, inc, mb)
+		rv, rerr := cl.ZIncrBy(ctx, k, float64(inc), mb).Result()
+		return check("ZIncrBy", fmt.Sprint(k, inc, mb), wv, werr, rv, rerr)
+	case 29:
+		k, a, z := c12KeyFor(o, "ZRemRangeByScore"), int64(o.Intn(4)), int64(o.Intn(12))
+		wv, werr := w.ZRemRangeByScore(k, a, z)
+		rv, rerr := cl.ZRemRangeByScore(ctx, k, fmt.Sprint(a), fmt.Sprint(z)).Result()
+		return check("ZRemRangeByScore", fmt.Sprint(k, a, z), wv, werr, rv, rerr)
+	case 30, 31:
+		k, a, z := c12KeyFor(o, "ZRangeByScoreWithScores"), int64(o.Intn(4)), int64(o.Intn(12))
+		rev := o.Intn(2) == 0
+		page, size := o.Intn(2), o.Intn(3)
+		limit := o.Intn(2) == 0
+		var wv []Pair
+		var werr error
+		by := &red.ZRangeBy{Min: fmt.Sprint(a), Max: fmt.Sprint(z)}
+		name := "ZRangeByScoreWithScores"
+		switch {
+		case !rev && !limit:
+			wv, werr = w.ZRangeByScoreWithScores(k, a, z)
+		case !rev:
+			name = "ZRangeByScoreWithScoresAndLimit"
+			wv, werr = w.ZRangeByScoreWithScoresAndLimit(k, a, z, page, size)
+		case !limit:
+			name = "ZRevRangeByScoreWithScores"
+			wv, werr = w.ZRevRangeByScoreWithScores(k, a, z)
+		default:
+			name = "ZRevRangeByScoreWithScoresAndLimit"
+			wv, werr = w.ZRevRangeByScoreWithScoresAndLimit(k, a, z, page, size)
+		}
+		if limit {
+			if size <= 0 {
+				// documented: a non-positive page size yields nothing
+				return check(name, fmt.Sprint(k, a, z, page, size), c12Canon(wv), werr, c12Canon([]Pair(nil)), nil)
+			}
+			by.Offset, by.Count = int64(page*size), int64(size)
+		}
+		var rz []red.Z
+		var rerr error
+		if rev {
+			rz, rerr = cl.ZRevRangeByScoreWithScores(ctx, k, by).Result()
+		} else {
+			rz, rerr = cl.ZRangeByScoreWithScores(ctx, k, by).Result()
+		}
+		var rp []Pair
+		for _, e := range rz {
+			rp = append(rp, Pair{Member: fmt.Sprint(e.Member), Score: int64(e.Score)})
+		}
+		return check(name, fmt.Sprint(k, a, z, page, size), c12Canon(wv), werr, c12Canon(rp), rerr)
+	case 32:
+		// script cache: load + evalsha on both sides
+		script := "return redis.call('incrby', KEYS[1], ARGV[1])"
+		k := c12KeyFor(o, "Set")
+		wsha, werr := w.ScriptLoad(script)
+		rsha, rerr := cl.ScriptLoad(ctx, script).Result()
+		if !check("ScriptLoad", "", wsha, werr, rsha, rerr) {
+			return false
+		}
+		wv, werr := w.EvalSha(wsha, []string{k}, 2)
+		rv, rerr := cl.EvalSha(ctx, rsha, []string{k}, 2).Result()
+		return check("EvalSha", k, wv, werr, rv, rerr)
+	case 33:
+		// pipeline: the same commands queued on both sides
+		k1, k2 := c12KeyFor(o, "Set"), c12KeyFor(o, "Set")
+		var wres, rres []string
+		werr := w.Pipelined(func(p Pipeliner) error {
+			a := p.Incr(ctx, k1)
+			b := p.Get(ctx, k2)
+			_, err := p.Exec(ctx)
+			wres = []string{fmt.Sprint(a.Val()), b.Val()}
+			return err
+		})
+		_, rerr := cl.Pipelined(ctx, func(p red.Pipeliner) error {
+			a := p.Incr(ctx, k1)
+			b := p.Get(ctx, k2)
+			_, err := p.Exec(ctx)
+			rres = []string{fmt.Sprint(a.Val()), b.Val()}
+			return err
+		})
+		return check("Pipelined", fmt.Sprint(k1, k2), wres, werr, rres, rerr)
 	}
 	return true
 }
